@@ -115,6 +115,13 @@ def gen_history(rng, nops, acct):
             a += 1 << 32
         v = rng.choice([0, M32, rng.getrandbits(32)]) & ((1 << (8 * w)) - 1)
         ops.append([op, a, w, v])
+    if preload and rng.random() < 0.12:
+        # a memory that was only LOOKED at (uncounted reads: print-string ecall, visualisation) and is then reset
+        pre = []
+        for _ in range(rng.randint(1, 4)):
+            b = rng.choice(bases)
+            pre.append(["ru", b + rng.randrange(bs), 1, 0])
+        ops = pre + [["reset", bases[0], 4, 0]] + ops
     return {"kind": "hist", "cfg": cfg, "bases": bases, "preload": preload, "ops": ops, "acct": acct}
 
 
